@@ -1490,4 +1490,29 @@ func TestC17(t *testing.T) {
 	stat.Check(t, st, "classC", stat.N(2000, 12000), drawC, run)
 	stat.Check(t, st, "malformed", stat.N(5000, 30000), drawM, run)
 	stat.Check(t, st, "bytes", stat.N(20000, 125000), drawBytes, runBytes)
+	if stat.ReplayPath() == "" && os.Getenv("VERIF_ONLY") == "" {
+		// every input of 0, 1 and 2 bytes (65793 inputs), split over the shards: no panic
+		shard, shards := stat.Shard()
+		var n int64
+		try := func(b []byte) bool {
+			n++
+			if f := runBytes(BytesCase{B: b}); f != nil {
+				st.Report("bytes-short-exhaustive", f, BytesCase{B: b})
+				t.Errorf("bytes-short-exhaustive: %v", f)
+				return false
+			}
+			return true
+		}
+		ok := shard != 0 || try([]byte{})
+		for a := 0; a < 256 && ok; a++ {
+			if a%shards != shard {
+				continue
+			}
+			ok = try([]byte{byte(a)})
+			for b := 0; b < 256 && ok; b++ {
+				ok = try([]byte{byte(a), byte(b)})
+			}
+		}
+		st.Bulk(n, n, "bytes-short-exhaustive")
+	}
 }
